@@ -2,7 +2,7 @@
 # usage: seeded_run.sh <seeded dir name> <tier> <check ids...>  -- runs the checks against the seeded change and records the verdicts in meta.json
 D=/verif/seeded/$1; TIER=$2; shift 2
 P=$D/$(python3 -c "import json;print(json.load(open('$D/meta.json'))['apply_to_current_tree'])")
-out=$(/verif/tools/try_mutant.sh "$P" "$TIER" "$@" 2>&1)
+out=$(SYNC=${SYNC:-1} /verif/tools/trial.sh "$P" "$TIER" "$@" 2>&1)
 echo "$out" | cut -c1-220
 python3 - "$D" "$TIER" "$out" <<'PY'
 import json,sys,re
